@@ -99,8 +99,8 @@ EXTRA = {
  "C15": " Added later: the cron loop re-arms its timer on every wake-up (CRON-REARM); the timeline stays sorted (TIMELINE-ORDER); the add hook never leaves a refused replacement without its job (HOOK-ADD-KEEPS), unregisters a scheduled rule that is overwritten by something unscheduled (HOOK-REPLACE) and runs before storage is written (HOOK-BEFORE-STORE); a due time from cronexpr is stored only under an IsZero test (CRON-NEXT-ZERO); OneShotSchedule classifies the trimmed schedule (ONESHOT-AGREE); crolt request URLs carry their endpoint (CROLT-URL).",
  "C16": " Added later: CRON-REARM, TIMELINE-ORDER, CRON-NEXT-ZERO, time.Parse argument order (TIME-PARSE-ARGS), CROLT-URL, every store into Job.at is a UTC time (AT-UTC), writer and deleter of a job agree on the partition (PARTITION-AGREE), bolt errors inside transactions reach the closure's result (BOLT-ERR).",
  "C17": " Added later: get-or-create on the cache table is decided by presence (CACHE-GET-OR-CREATE); the in-use mark counts its users (PENDING-COUNT: known finding); CACHE-EVICT; with CachePending on every new entry is published before the table lock is released (CACHE-PENDING-SHARED); the two cache mutexes are taken in one order (LOCK-ORDER); every checked request looks at the creation marker, cached or not (EXIST-EVERY); Storage.Load does not write the storage object (LOAD-PURE).",
- "C19": " Added later: the key gates fail closed when the key cannot be read (GATE-FAILCLOSED).",
- "C20": " Added later: CTOR-PARAM (the per-group capacity reaches the location); the throttle gives back only slots it took (THR-PENDING).",
+ "C19": " Added later: the key gates fail closed when the key cannot be read (GATE-FAILCLOSED); the parent list is handed out only behind CheckRead (GATE-PARENTS); the size of a disabled location is not reported (GATE-COUNT).",
+ "C20": " Added later: CTOR-PARAM (the per-group capacity reaches the location); the throttle gives back only slots it took and every slot it took (THR-PENDING); Adjust keeps the calls in the window (BRK-ADJUST). Known finding: the window has as many elements as ticks, so it reaches back less than one interval (BRK-WINDOW).",
 }
 
 NOT_APPLICABLE = {
